@@ -54,6 +54,8 @@ RowFailing(r, o) ==
     ELSE IF o.http # HttpEnc(r) THEN "HttpEncodingReported"
     ELSE IF o.xml # XmlEnc(r) THEN "XmlEncodingReported"
     ELSE IF o.meta # MetaEnc(r) THEN "MetaEncodingReported"
+    \* the same answer again after other documents (truncated inside <style>, inside a comment) have been analysed in between
+    ELSE IF ~o.stable THEN "AnswerIndependentOfEarlierDocuments"
     ELSE "ok"
 
 \* ---- sniffers ------------------------------------------------------------------------------------------
